@@ -27,12 +27,12 @@ add("C08", "exploration",
     {"quick": {"inbound_acks_matched": 1000, "evaluations": 1000}, "thorough": {"inbound_acks_matched": 100000}})
 
 add("C05", "exploration",
-    "bounded-exhaustive enumeration of every interleaving (choice-vector odometer, re-executed from scratch) of operation starts on two handle clones, "
+    "(+ real-thread stress: 2-8 OS threads, every result verified against the acknowledgement the broker thread generated for that very request; + identifier-pair sweep via hook H2) bounded-exhaustive enumeration of every interleaving (choice-vector odometer, re-executed from scratch) of operation starts on two handle clones, "
     "acknowledgement deliveries in any order, held/released and spurious polls, plus long PRNG walks; an executable model maps each operation to the "
     "packet identifier read off the wire and to the acknowledgement generated for it (unique reason string / user property per ack) and is compared with "
     "the futures' results at every quiescent point. distinct = distinct abstract trace shapes (per-op kind/acceptance/ack state/result class + wire packet type sequence).",
-    {"quick": ["checked"], "thorough": ["checked", "fast"]},
-    {"quick": {"op_results_matched_to_their_ack": 5000, "op_pending_checked": 5000}, "thorough": {"op_results_matched_to_their_ack": 500000}})
+    {"quick": ["checked"], "thorough": ["checked", "fast", "tsan?"]},
+    {"quick": {"op_results_matched_to_their_ack": 5000, "op_pending_checked": 5000, "mt_results_matched_to_their_own_ack": 10000, "identifier_pairs": 300}, "thorough": {"op_results_matched_to_their_ack": 500000, "mt_results_matched_to_their_own_ack": 200000}})
 
 add("C06", "exploration",
     "structured sweep (QoS x every legal PUBACK/PUBREC/PUBCOMP reason code x short/full form x late polling of the QoS 2 future x companion traffic) plus "
